@@ -5,10 +5,10 @@ D=$(realpath $1); TIER=${2:-quick}
 PROP=$(python3 -c "import json,sys;print(json.load(open('$D/meta.json'))['property'])")
 cd /repo || exit 2
 if ! git diff --quiet; then echo "/repo has uncommitted changes; refusing"; exit 2; fi
-if ! git apply --3way "$D/patch.diff" 2>/tmp/apply.err && ! git apply "$D/patch.diff"; then echo "PATCH-DOES-NOT-APPLY $D"; cat /tmp/apply.err; git checkout -q -- . ; git reset -q; exit 2; fi
+if ! git apply "$D/patch.diff" 2>/tmp/apply.err; then echo "NEEDS-REBASE $D"; head -2 /tmp/apply.err; git reset -q --hard HEAD; exit 2; fi
 git reset -q
 cd /verif && /venv/bin/python run.py "$PROP" --tier "$TIER" > /tmp/try_seed.out 2>&1; rc=$?
-git -C /repo checkout -q -- .
+git -C /repo reset -q --hard HEAD
 grep -h "VIOLATION\|HARNESS" /tmp/try_seed.out | head -5
 tail -1 /tmp/try_seed.out
 if [ $rc -eq 1 ]; then echo "CAUGHT $D ($PROP $TIER)"; elif [ $rc -eq 0 ]; then echo "MISSED $D ($PROP $TIER)"; else echo "HARNESS-ERROR rc=$rc $D"; fi
